@@ -39,6 +39,72 @@ func runC01(c *Ctx) {
 	c.checkRemarshalStored()
 	c.checkBlockComponentBytes()
 	c.checkHashCacheReset()
+	c.checkSetCborFresh()
+}
+
+// checkSetCborFresh: the bytes an object reports are its own — SetCbor stores a slice it has just allocated (or nil),
+// never its previous backing array (objects that were handed sub-slices of it by SetCborReference would see their
+// bytes rewritten by the next decode into the same value) and never the caller's slice.
+func (c *Ctx) checkSetCborFresh() {
+	fo := c.FuncObjOpt("cbor", "DecodeStoreCbor.SetCbor")
+	if fo == nil {
+		c.Undecided("cbor.DecodeStoreCbor.SetCbor not found")
+		return
+	}
+	fn := c.SSAOf(fo)
+	key := ssaFuncKey(fn)
+	n := 0
+	var fresh func(v ssa.Value, d int) (bool, string)
+	fresh = func(v ssa.Value, d int) (bool, string) {
+		if d > 6 {
+			return false, "a value this checker cannot trace"
+		}
+		switch x := v.(type) {
+		case *ssa.Const:
+			return isNilConst(x), "a constant"
+		case *ssa.MakeSlice:
+			return true, ""
+		case *ssa.Slice:
+			return fresh(x.X, d+1)
+		case *ssa.Phi:
+			for _, e := range x.Edges {
+				if ok, why := fresh(e, d+1); !ok {
+					return false, why
+				}
+			}
+			return true, ""
+		case *ssa.Call:
+			if b, isB := x.Call.Value.(*ssa.Builtin); isB && b.Name() == "append" {
+				// append([]byte(nil), data...) / append(make(...), data...) allocate; appending onto the old slice does not
+				return fresh(x.Call.Args[0], d+1)
+			}
+			if cn := calleeName(&x.Call); cn == "bytes.Clone" || cn == "slices.Clone" || strings.HasPrefix(cn, "slices.Clone[") {
+				return true, ""
+			}
+			return false, "the result of " + calleeName(&x.Call)
+		case *ssa.Parameter:
+			return false, "the caller's slice"
+		case *ssa.UnOp:
+			return false, "the slice already stored in " + shortArg(trace(x))
+		}
+		return false, shortArg(trace(v))
+	}
+	for _, in := range fnInstrs(fn) {
+		st, ok := in.(*ssa.Store)
+		if !ok {
+			continue
+		}
+		fa, ok := st.Addr.(*ssa.FieldAddr)
+		if !ok || fieldName(fa.X.Type(), fa.Field) != "cborData" {
+			continue
+		}
+		n++
+		ok2, why := fresh(st.Val, 0)
+		c.Check(ok2, "setcbor-fresh", fmt.Sprintf("%s:store%d", key, n), st.Pos(), "stores nil or a slice allocated here", "SetCbor stores "+why+": the bytes an earlier-decoded object reports (sub-slices handed out by SetCborReference, or a previous Cbor() result) are overwritten when the same value is decoded into again")
+	}
+	if n == 0 {
+		c.Undecided("%s: no store to cborData found", key)
+	}
 }
 
 // checkHashCacheReset: a type that caches its hash (a pointer field named hash, possibly inside an embedded struct)
@@ -152,24 +218,7 @@ func (c *Ctx) checkHashCacheReset() {
 				}
 			}
 			// every success return is reached only through a reset
-			bad := ""
-			seen := map[*ssa.BasicBlock]bool{}
-			var walk func(b *ssa.BasicBlock)
-			walk = func(b *ssa.BasicBlock) {
-				if seen[b] || reset[b] {
-					return
-				}
-				seen[b] = true
-				for _, s := range b.Succs {
-					walk(s)
-				}
-			}
-			walk(fn.Blocks[0])
-			for _, r := range successReturns(fn) {
-				if seen[r.Block()] {
-					bad = c.pos(r.Pos())
-				}
-			}
+			bad := c.successBypass(fn, reset)
 			c.Check(bad == "", "hash-cache-reset", key, fn.Pos(), "a successful decode replaces the whole value or clears the cached hash", "a successful decode (return at "+bad+") neither assigns the whole receiver nor clears the cached hash: decoding new bytes into a value whose Hash() was already taken leaves Hash() answering for the old bytes while Cbor() returns the new ones")
 		}
 	}
